@@ -200,7 +200,7 @@ def run():
     uni, ust = common.tlc_eval_json("Dump_Universe", cfg="Dump_Universe_Q" if QUICK else "Dump_Universe_T")
     chk.add_tlc(ust)
     from harness.props.c03 import mutation_layers
-    for a in rng.sample(uni, 150 if QUICK else 10000):
+    for a in rng.sample(uni, min(len(uni), 150 if QUICK else 10000)):
         layers = mutation_layers(a, rng, maxm=2)
         cases.append(drive(rng.choice(layers), rng))
     nuni = len(cases)
